@@ -2,12 +2,36 @@
 import re
 from vlib import core
 
-VARIANTS = {"vsbx": ([], "tree", 8), "noop": (["-DCALLS_NOOP"], "treen", 64), "noop_tls": (["-DCALLS_NOOP", "-DCALLS_EMBEDDER_TLS"], "treen", 64)}
+VARIANTS = {"vsbx": ([], "tree", 8), "noop": (["-DCALLS_NOOP"], "treen", 64), "noop_tls": (["-DCALLS_NOOP", "-DCALLS_EMBEDDER_TLS"], "treen", 64),
+            # the bundled dylib backend, executed for real: the guest functions live in a shared object the backend dlopens
+            "dylib": (["-DCALLS_DYLIB"], "treen", 64), "dylib_tls": (["-DCALLS_DYLIB", "-DCALLS_EMBEDDER_TLS"], "treen", 64)}
 
 
 def build(variant):
     flags, _, _ = VARIANTS[variant]
     return core.build_harness("h_calls_" + variant, ["h_calls.cpp"], core.SAN + flags)
+
+
+def guest_so():
+    """the guest side for the dylib backend (harness/guest_calls.cpp) as a shared object; returns (path, log)"""
+    import hashlib, os
+    src = os.path.join(core.HARNESS, "guest_calls.cpp")
+    key = hashlib.sha256(open(src, "rb").read()).hexdigest()[:16]
+    out = os.path.join(core.WORK, "bin", f"libguest_calls-{key}.so")
+    os.makedirs(os.path.dirname(out), exist_ok=True)
+    if not os.path.exists(out):
+        r = core.sh(["g++", "-shared", "-fPIC", "-O1", "-g", src, "-o", out + ".tmp"])
+        if r.returncode != 0:
+            return None, r.stdout
+        os.rename(out + ".tmp", out)
+    return out, ""
+
+
+def env_for(variant):
+    if variant.startswith("dylib"):
+        so, log = guest_so()
+        return {"VH_GUEST_SO": so} if so else None
+    return None
 
 
 class Gen:
